@@ -23,9 +23,13 @@ def _tag(line, out):
 
 def run(ctx):
     ctx.modelled += [
-        "file-system model is lexical (no symlink resolution): adequate because the extractors call EnsureNoSymlinks "
-        "before every system call (Props.C19.ensureNoSymlinks_spec / extract_wf); the destination itself is a real "
-        "directory, a file, or missing in every generated sandbox (never a symbolic link)",
+        "the driver executes the RESOLVING model (Model/ExtractR.lean: walk follows symbolic links as the kernel does, "
+        "os.MkdirAll / EnsureNoSymlinks transcribed call by call); C19.resolving_is_lexical proves it equal to the "
+        "lexical model of the other theorems when the guard is called, C19.guardless_escapes shows the guard-less "
+        "loops escape; area dstlinkm runs it against the real code with the destination a symbolic link (relative, "
+        "absolute, with dots, a chain, out of the sandbox and back), which exercises the link-following itself",
+        "privileged process: permission bits never make a call fail (model and correspondence run); for an ordinary "
+        "user extract_reproduces' \"no error\" needs u+wx on every directory that later receives a child",
         "archive/tar and archive/zip readers/writers are used as they are; the model sees the entries the readers yield",
     ]
     ctx.assumptions += [
@@ -84,8 +88,7 @@ def run(ctx):
         "mismatch, zip declared size one more / one less than the payload, write limit 0…64 KiB, missing / cut archive "
         "file; the same archive extracted twice into one destination (r:2); pre-existing read-only and untraversable "
         "directories and files",
-        "area dstlink (implementation-side metamorphic oracle, no Lean model: the lexical model does not resolve a "
-        "linked root): the destination is a symbolic link to a sibling directory; result and whole tree must equal those "
+        "area dstlink (implementation-side metamorphic oracle, kept beside the model-tied area dstlinkm): the destination is a symbolic link to a sibling directory; result and whole tree must equal those "
         "of the same archive extracted into that directory itself (archives with an entry naming the destination itself "
         "are exempt: the guard refuses a linked root)",
         "a call that does not return within 10 s is reported as `hang` and the rest of that stream is skipped; panics are "
@@ -101,5 +104,9 @@ def run(ctx):
              theorem="C19.extract_contained / extract_wf / ensureNoSymlinks_spec / payload_error_propagates / "
                      "extract_reproduces / extract_reproduces_zip / extract_error_iff are about the model; "
                      "impl != model on this archive")
-    ctx.impl_oracle("dstlink", {"quick": 700, "thorough": 12000}, label="destination is a symbolic link to a directory",
+    ctx.diff(area="dstlinkm", driver="drv_c19", n={"quick": 800, "thorough": 15000},
+             trivial=lambda l, o: " e:" not in l, tagger=lambda l, o: "dstlink:" + o.split(" ", 1)[0],
+             timeout=(240 if ctx.tier == "quick" else 900),
+             theorem="the resolving model (Ex.walk) follows the destination link; impl != model on this archive")
+    ctx.impl_oracle("dstlink", {"quick": 300, "thorough": 4000}, label="destination is a symbolic link to a directory",
                     timeout=(240 if ctx.tier == "quick" else 900))
